@@ -78,6 +78,16 @@ def live_case(spec, log):
             else:
                 fn = lambda: w.is_alive()
             before = None if own else pid_running(pid)
+            if op.get('cont_after') is not None and not own:
+                # the stopped child is resumed while the call is in progress
+                import threading
+
+                def cont():
+                    try:
+                        os.kill(pid, signal.SIGCONT)
+                    except OSError:
+                        pass
+                threading.Timer(op['cont_after'], cont).start()
             r = bounded(name, fn, op.get('deadline', 4 * (t or 0) + 25), args=a, pid_running_before=before)
             st = None if own else proc_stat(pid)
             log.ev('after', op=name, args=a, ret=(None if r is HANG else ('RAISED:' + type(r.exc).__name__ if isinstance(r, Raised) else r)), hang=(r is HANG),
@@ -113,6 +123,13 @@ def live_matrix(tier):
                             ops.append(dict(op='terminate', timeout=t, force=True))
                     ops += [dict(op='wait', timeout=0), dict(op='terminate', timeout=0, force=False if thread else True)]
                     jobs.append(dict(cls=cls, behaviour=beh, ops=ops, t=t, force=force))
+        if not thread:
+            # a stopped child that is resumed while a later call is in progress (requests of earlier, timed-out calls are still unread)
+            tail = [dict(op='wait', timeout=0), dict(op='terminate', timeout=0, force=True)]
+            for ca in (0.05, 0.15, 0.4):
+                jobs.append(dict(cls=cls, behaviour='stopped', t=0.2, force='resumed', ops=[dict(op='terminate', timeout=0.2, force=False), dict(op='terminate', timeout=1, force=True, cont_after=ca)] + tail))
+                jobs.append(dict(cls=cls, behaviour='stopped', t=0.2, force='resumed', ops=[dict(op='terminate', timeout=0.2, force=False), dict(op='terminate', timeout=0.2, force=False), dict(op='terminate', timeout=1, force=False, cont_after=ca), dict(op='terminate', timeout=1, force=True)] + tail))
+                jobs.append(dict(cls=cls, behaviour='stopped', t=0.2, force='resumed', ops=[dict(op='wait', timeout=0.1), dict(op='terminate', timeout=1, force=True, cont_after=ca)] + tail))
     return jobs
 
 
@@ -285,7 +302,7 @@ def run(tier):
         return sp, res
 
     for sp, res in pmap(one, list(enumerate(jobs)), 8):
-        chk.case(('live', sp['cls'], sp['behaviour'], sp['t'], sp['force']))
+        chk.case(('live', sp['cls'], sp['behaviour'], sp['t'], sp['force'], tuple((o['op'], o.get('timeout'), o.get('force'), o.get('cont_after')) for o in sp['ops'])))
         chk.count('live_cases')
         judge_live(chk, sp, res)
 
